@@ -21,11 +21,17 @@ def record(items, widths, fuel=200000, max_events=2500, with_prog=True):
             it["src"], it["ap"] = render(it["prog"])
         cases.append({"id": it["id"], "src": it["src"], "trace": 1, "funcs": True, "fuel": fuel})
     res = core.run_cases(cases)
+    for it in items:
+        it["raw"] = res[it["id"]]
+    return from_raw(items, widths, max_events=max_events, with_prog=with_prog)
+
+
+def from_raw(items, widths, max_events=2500, with_prog=True):
+    """VMRun records from items already run with full tracing (it["raw"]) and rendered (it["ap"])"""
     recs = []
     for it in items:
-        r = res[it["id"]]
-        it["raw"] = r
-        if "trace" not in r or "funcs" not in r:
+        r = it["raw"]
+        if "trace" not in r or "funcs" not in r or "bnames" not in r:
             it["skipped"] = "no trace (%s)" % r.get("how")
             continue
         if len(r["trace"]) > max_events:
@@ -35,10 +41,26 @@ def record(items, widths, fuel=200000, max_events=2500, with_prog=True):
                "final": r.get("final") or NONE, "obs": r.get("obs") or NONE}
         rec = {"id": it["id"], "funcs": r["funcs"], "consts": r["consts"], "widths": widths, "bnames": r["bnames"],
                "obsidx": r.get("obsidx", -1), "trace": r["trace"], "out": out}
-        if with_prog:
+        if with_prog and "ap" in it:
             rec["prog"] = it["ap"]
         recs.append(rec)
     return recs
+
+
+OPNAMES = ["Constant", "Pop", "Add", "Sub", "Mul", "Div", "Mod", "True", "False", "Equal", "NotEqual", "Greater",
+           "GreaterEq", "Minus", "Bang", "Jump", "JumpIfFalse", "JumpIfFalseNoPop", "Null", "DefineGlobal",
+           "GetGlobal", "SetGlobal", "Array", "Map", "GetIndex", "SetIndex", "Call", "ReturnValue", "Return",
+           "DefineLocal", "GetLocal", "SetLocal", "GetBuiltinFn", "GetBuiltinVar", "Closure", "GetFree", "SetFree",
+           "CurrClosure", "Not", "And", "Or", "Xor", "ShiftLeft", "ShiftRight", "Dup", "GetProp", "SetProp", "Dollar"]
+
+
+def describe(v, raw):
+    """one-line description of a non-ok verdict: what diverged, after which instruction"""
+    tr = raw.get("trace") or []
+    at = v.get("at", 0)
+    prev = tr[at - 2] if 2 <= at <= len(tr) + 1 else None
+    opn = OPNAMES[prev[3]] if prev and prev[3] < len(OPNAMES) else "start"
+    return "%s: %s after %s" % (v["v"], v["why"], opn)
 
 
 def validate(recs, timeout=1500, workers=None):
